@@ -59,7 +59,7 @@ class Check(PropertyCheck):
 
     def generate(self, rng, n, tier):
         yield Scenario(["new", "mark defaults"], {"kind": "defaults"})
-        n_search = 25 if tier == "quick" else 250
+        n_search = 45 if tier == "quick" else 300
         if getattr(self, "in_search", False):
             n_search = n        # failing-input search: every instance is small enough for the optimum search
         for i in range(n):
